@@ -58,6 +58,54 @@ def class_names(h):
     return out
 
 
+_NAMES_CACHE = {}
+
+
+def dynamic_class_names(ph):
+    from contracts import parse as PA
+    from spec import rv32, rvc
+    h = ph.h
+    key = id(h.mod)
+    if key in _NAMES_CACHE:
+        return _NAMES_CACHE[key]
+    out = {}
+    fallback = None
+    for m in h.instructions():
+        sp = rvc if m.startswith('c.') else rv32
+        try:
+            counts = [len(sp.roles(m))]
+        except Exception:
+            counts = [0, 1, 2, 3, 4]
+        found = set()
+        for n in counts + [c for c in (0, 1, 2, 3, 4, 5) if c not in counts]:
+            toks = [PA.tok('t%d' % i) for i in range(n)]
+
+            def body(run, toks=toks, m=m):
+                for t in toks:
+                    run.assume(t.t != I.str_id('='))
+                    run.assume(t.t != I.str_id('('))
+                item, it, line = PA.run_parse(h, ph, run, [m] + toks)
+                return item
+            try:
+                paths = I.explore(body, I.IntDom)
+            except I.Unsupported:
+                continue
+            for p in paths:
+                if p.kind == 'return' and isinstance(p.value, I.SObj):
+                    found.add(p.value.cls.name)
+            if found:
+                break
+        if not found:
+            fallback = fallback if fallback is not None else class_names(h)
+            found = {c for c, ms in fallback.items() if m in ms}
+        for c in found:
+            out.setdefault(c, [])
+            if m not in out[c]:
+                out[c].append(m)
+    _NAMES_CACHE[key] = out
+    return out
+
+
 def item_classes(h):
     Item = h.env.vars['Item']
     out = []
@@ -117,13 +165,22 @@ class PassHarness:
         self.params = [a.arg for a in self.node.args.args]
         # whether the pass keeps a byte position is discovered when the item loop is reached (run_body)
         self.pos_var = True
-        self.names = class_names(h)
+        self._names = None
         ctx.dropped.add('log_conversion / log_constant / log.info calls (A-LOG: logging has no effect on results)')
         ctx.trust('modular callee contracts used inside pass bodies (each body is verified separately where it has one): lookup_register '
                   '(contracts/encoders.py), Arithmetic.eval (deterministic int-or-AssemblerError; integer literals and str(int) evaluate to '
                   'their value: A-EVAL), parse_immediate for unknown tokens (some expression object), SymExpr.eval for parser-produced '
                   'expressions (deterministic function of expression, position and table state, or AssemblerError with the given line)')
         ctx.trust('struct.calcsize(fmt) >= 0 for an accepted format, struct.error otherwise (A-STRUCT)')
+
+    @property
+    def names(self):
+        """Item class -> the mnemonics parse_item builds it for: found by RUNNING the real parse_item on every mnemonic of the
+        instruction tables with arbitrary operand tokens (how parse_item is written does not matter); the reading of its
+        if-chain (class_names) is only a fallback for mnemonics the run cannot decide"""
+        if self._names is None:
+            self._names = dynamic_class_names(self)
+        return self._names
 
     # -- contracts used modularly inside the bodies ----------------------
     def contracts(self, builder):
